@@ -96,6 +96,11 @@ def build_design(s, shape, gated, enw=1, en_src='input', late=False):
         e = s.wire('en', enw)
         if en_src == 'input':
             ins['en'] = e
+        elif en_src == 'regdirect':
+            # the enable IS the output of a base-domain register (instantiated before the gated block) and nothing else reads it
+            ed = s.wire('ed', enw)
+            ins['ed'] = ed
+            Reg(s, 'ereg', ed, e)
         elif en_src == 'combbase':
             # the enable is a combinational function of a register of the base domain
             eb = s.wire('eb', 1)
@@ -133,7 +138,7 @@ def build_design(s, shape, gated, enw=1, en_src='input', late=False):
                 py4hw.ZeroExtend(b, 'e', t, e) if enw > 1 else Buf(b, 'e', t, e)
         outs = {'o': o}
         bins = {'q0': q0}
-        if en_src in ('input', 'combbase'):
+        if en_src in ('input', 'combbase', 'regdirect'):
             bins['en'] = e
         else:
             outs['en'] = e
@@ -418,6 +423,8 @@ def cfgs(tier):
     out.append(('block enable=combinational function of a base-domain register', {'shape': 'block', 'enw': 1, 'en_src': 'combbase'}))
     out.append(('fsm enable=2-bit combinational function of a register of the gated domain', {'shape': 'fsm', 'enw': 2, 'en_src': 'comb'}))
     out.append(('only-gated enable=input', {'shape': 'only-gated', 'enw': 1, 'en_src': 'input'}))
+    out.append(('block enable=output of a base-domain register that nothing else reads', {'shape': 'block', 'enw': 1, 'en_src': 'regdirect'}))
+    out.append(('block enable=2-bit output of a base-domain register that nothing else reads', {'shape': 'multibit', 'enw': 2, 'en_src': 'regdirect'}))
     out.append(('gated-first (gated block instantiated before the base-domain registers, ungated derived driver last) enable=input', {'shape': 'gated-first', 'enw': 1, 'en_src': 'input'}))
     out.append(('gated-first enable=2-bit input', {'shape': 'gated-first', 'enw': 2, 'en_src': 'input'}))
     for shape in ('block', 'ancestor', 'nested', 'only-gated') if quick else ('block', 'fsm', 'ancestor', 'nested', 'three', 'only-gated'):
@@ -435,7 +442,7 @@ def multi_cfgs(tier):
     quick = tier == 'quick'
     out = []
     for n in ((2, 3) if quick else (2, 3, 4)):
-        for shape, enw, en_src in (('block', 1, 'comb'), ('block', 1, 'combbase'), ('block', 1, 'inside'), ('block', 1, 'input'), ('leaf', 1, 'input'), ('gated-first', 1, 'input'),
+        for shape, enw, en_src in (('block', 1, 'comb'), ('block', 1, 'combbase'), ('block', 1, 'inside'), ('block', 1, 'input'), ('block', 1, 'regdirect'), ('leaf', 1, 'input'), ('gated-first', 1, 'input'),
                                    ('fsm', 2, 'comb'), ('nested', 1, 'input'), ('nested-chain', 1, 'input')):
             if quick and n == 3 and shape != 'block':
                 continue
